@@ -254,6 +254,18 @@ def closed_under_degeneracy(evals_planted, neig, lowest):
     return abs(srt[n - neig] - srt[n - neig - 1]) > 1e-3
 
 
+def forward_defect(build, nth, symeig, xt, MFP, kind, neig, lowest, useM):
+    """max(|A X - M X E|, |X^H M X - I|) of the davidson forward (min_eps 1e-10) of the unperturbed pencil"""
+    with torch.no_grad():
+        A, M = build(torch.zeros(nth, dtype=DT))
+        mk = (lambda t: xt.LinearOperator.m(t, is_hermitian=True)) if kind == "dense" else MFP
+        e, X = symeig(mk(A), neig, "lowest" if lowest else "uppest", mk(M) if useM else None, method="davidson", min_eps=1e-10)
+        MX = X if M is None else M @ X
+        res = (A @ X - MX * e.unsqueeze(-2)).abs().max().item()
+        orth = (X.transpose(-2, -1).conj() @ MX - torch.eye(neig, dtype=X.dtype)).abs().max().item()
+    return max(res, orth)
+
+
 def oracle(ctx):
     import xitorch as xt
     from xitorch.linalg import symeig, svd
@@ -356,8 +368,30 @@ def oracle(ctx):
             refkind = "central finite differences of the dense reference"
         scale = 1 + ref1.abs().max().item()
         if not torch.isfinite(g1).all() or (g1.detach() - ref1).abs().max().item() > tol * scale:
-            ctx.fail("oracle", "symeig-grad:first-order:%s%s%s" % (method, ":M" if useM else "", ":degenerate" if spec is not None else ""),
-                     info, {"impl": g1.detach().tolist(), "reference": ref1.tolist(), "reference_kind": refkind}, "agree to %g" % tol)
+            key = "symeig-grad:first-order:%s%s%s" % (method, ":M" if useM else "", ":degenerate" if spec is not None else "")
+            obs = {"impl": g1.detach().tolist(), "reference": ref1.tolist(), "reference_kind": refkind}
+            if method == "davidson" and torch.isfinite(g1).all():
+                # finding F39: the un-deflated shifted solve of the implicit backward amplifies the inexactness of an iterative
+                # forward.  Recognised by (a) a forward defect above rounding, (b) the SAME backward with an exact forward
+                # (custom_exacteig) agreeing with the reference on this input; anything else keeps the generic key.
+                try:
+                    with warnings.catch_warnings():
+                        warnings.simplefilter("ignore")
+                        defect = forward_defect(build, nth, symeig, xt, MFP, kind, neig, lowest, useM)
+                        method_saved, method = method, "custom_exacteig"
+                        try:
+                            th3 = torch.zeros(nth, dtype=DT, requires_grad=True)
+                            g3, = torch.autograd.grad(impl_loss(th3), th3)
+                        finally:
+                            method = method_saved
+                    exact_ok = bool(torch.isfinite(g3).all()) and (g3 - ref1).abs().max().item() <= 1e-7 * scale
+                except Exception:
+                    defect, exact_ok = 0.0, False
+                obs["forward_defect_of_davidson"] = defect
+                obs["same_backward_with_exact_forward_agrees"] = exact_ok
+                if defect > 1e-12 and exact_ok:
+                    key = "symeig-grad:davidson:inexact-forward-amplified"
+            ctx.fail("oracle", key, info, obs, "agree to %g" % tol)
             continue
         # second order (non-degenerate: against the reference's autograd; degenerate: finite and symmetric)
         try:
@@ -555,6 +589,49 @@ def oracle(ctx):
                      repr(ex)[:200], "first-order gradient")
         else:
             ctx.fail("oracle", "symeig-grad:custom_exacteig:exception", {"A": "diag(1, 2, 3)"}, repr(ex)[:200], "first-order gradient")
+    # ---- finding F39: an iterative forward at its DEFAULT tolerance (davidson, min_eps 1e-6): the gradient of a gauge-invariant
+    #      function of the vectors should inherit an error of the order of the forward residual over the gap to the rest of the
+    #      spectrum (here 1); the un-deflated shifted solve divides the projection error by e_computed - e_true instead ----
+    for deg in (False, True):
+        gF = torch.Generator()
+        gF.manual_seed(6002)
+        nF = 60
+        QF, _ = torch.linalg.qr(torch.randn(nF, nF, dtype=DT, generator=gF))
+        specF = torch.cat([torch.tensor([1.0, 1.0 if deg else 1.3], dtype=DT), 2 + 0.5 * torch.arange(nF - 2, dtype=DT)])
+        AF = herm(QF @ torch.diag(specF) @ QF.T)
+        AdF = herm(torch.randn(nF, nF, dtype=DT, generator=gF))
+        CF = herm(torch.randn(nF, nF, dtype=DT, generator=gF))
+        ctx.count(("F39-probe", deg), nontrivial=True)
+        outs = {}
+        try:
+            for method in ("exacteig", "custom_exacteig", "davidson"):
+                th = torch.zeros((), dtype=DT, requires_grad=True)
+                Am = AF + th * AdF
+                with warnings.catch_warnings():
+                    warnings.simplefilter("ignore")
+                    e_, X_ = symeig(xt.LinearOperator.m(Am, is_hermitian=True), 2, "lowest", method=method)
+                    gv, = torch.autograd.grad(0.7 * e_.sum() + (CF * (X_ @ X_.T)).sum(), th)
+                with torch.no_grad():
+                    resid = float((AF @ X_ - X_ * e_).abs().max())
+                outs[method] = (gv.item(), resid)
+        except Exception as ex:
+            msg = repr(ex)
+            if "positive-definite" in msg:
+                ctx.stat("davidson_forward_F27")
+            else:
+                ctx.fail("oracle", "symeig-grad:default-tolerance-probe:exception", {"n": nF, "degenerate_pair": deg}, msg[:300], "a gradient")
+            continue
+        ref = outs["exacteig"][0]
+        infoF = {"n": nF, "neig": 2, "spectrum": "1, %s, 2, 2.5, 3, ..." % ("1" if deg else "1.3"), "generator_seed": 6002,
+                 "loss": "0.7 sum(e) + tr(C X X^T)", "options": "defaults"}
+        if abs(outs["custom_exacteig"][0] - ref) > 1e-8 * (1 + abs(ref)):
+            ctx.fail("oracle", "symeig-grad:default-tolerance-probe:custom_exacteig", infoF, {k: v[0] for k, v in outs.items()},
+                     "the implicit backward with an exact forward agrees with exacteig")
+        gd, rd = outs["davidson"]
+        if abs(gd - ref) > 1e3 * max(rd, 1e-12) * (1 + abs(ref)):
+            ctx.fail("oracle", "symeig-grad:davidson:inexact-forward-amplified", infoF,
+                     {"davidson": gd, "exacteig": ref, "forward_residual_of_davidson": rd},
+                     "gradient error at most 1000 x the forward residual (gap to the rest of the spectrum is 0.7 or 1)")
     # ---- svd ----
     for rep in range(ctx.n(20, 150)):
         g = gen(rng)
